@@ -171,10 +171,20 @@ def run_deductive(pid, plan, repo, tier, seed, replay_dir):
                         st3, info3 = solve.relax_check(ob.hyps, ob.goal)
                     except Exception as e:  # noqa
                         st3, info3 = "unknown", "relaxation failed: %s" % e
+                    if st3 != "discharged":
+                        # one retry with a different random seed and three times the budget (guards against a busy machine)
+                        try:
+                            smt = "(set-option :smt.random_seed 7)\n" + solve.to_smt2(ob.hyps, ob.goal)
+                            st4, be4, dt4, info4 = solve._z3_check(smt, 3 * solve.Z3_TIMEOUT_MS)
+                            if st4 == "discharged":
+                                st3, info3 = "discharged", "retry with seed 7 / 3x budget (%.1fs)" % dt4
+                        except Exception as e:  # noqa
+                            pass
                 if st3 == "discharged":
                     n_dis += 1
-                    r["status"], r["backend"] = "discharged", "z3-instantiation"
-                    by_backend["z3-instantiation"] = by_backend.get("z3-instantiation", 0) + 1
+                    be = "z3-retry" if info3.startswith("retry") else "z3-instantiation"
+                    r["status"], r["backend"] = "discharged", be
+                    by_backend[be] = by_backend.get(be, 0) + 1
                     continue
                 base_name = r["name"].split("#p")[0]
                 was = baseline.get(r["name"]) or baseline.get(base_name)
